@@ -139,7 +139,7 @@ class Method(Variable):  # i.e. TypeBound procedure
                 # The target of the binding need not be a procedure
                 args_snip = getattr(link_obj, "args_snip", None)
                 if self.pass_name is not None and args_snip is not None:
-                    self.pass_name = self.pass_name.lower()
+                    self.pass_name = self.pass_name.strip().lower()
                     for i, arg in enumerate(args_snip.split(",")):
                         if arg.lower() == self.pass_name:
                             self.drop_arg = i
